@@ -441,14 +441,24 @@ func RunQuiesce(f *Fleet, m *MonC10) {
 	}
 	// Phase Q: silence. Nothing may be uploaded or committed.
 	q0 := take()
+	quietStart := f.Sim.Now()
 	f.Phase = "quiet"
 	f.Drain(time.Duration(10+f.T.Choose("quiet-polls", 15)) * (f.Cfg.Poll + f.Cfg.StPoll))
 	if f.Failed() {
 		return
 	}
 	q1 := take()
+	quietDur := f.Sim.Now() - quietStart
 	for _, n := range f.Nodes {
-		if q1.stores[n.Name] != q0.stores[n.Name] {
+		if fi := f.Cfg.ForceInt; fi > 0 {
+			// forced snapshots are allowed, but only at the configured interval
+			if got, max := q1.stores[n.Name]-q0.stores[n.Name], int(quietDur/fi)+1; got > max {
+				f.Violate(Violation{"C10", "quiet-no-uploads", "more-uploads-than-forced-interval",
+					fmt.Sprintf("%s uploaded %d snapshots in %s of silence; storage_force_snapshot_interval is %s", n.Name, got, quietDur, fi)})
+				return
+			}
+			f.Sim.Probe("c10-forced-interval-checked")
+		} else if q1.stores[n.Name] != q0.stores[n.Name] {
 			f.Violate(Violation{"C10", "quiet-no-uploads", "upload-without-local-change",
 				fmt.Sprintf("%s uploaded %d snapshot(s) during a phase without application writes, restarts or forced interval, after the fleet had converged", n.Name, q1.stores[n.Name]-q0.stores[n.Name])})
 			return
@@ -476,6 +486,9 @@ func RunQuiesce(f *Fleet, m *MonC10) {
 	q2 := take()
 	for _, n := range f.Nodes {
 		ds := q2.stores[n.Name] - q1.stores[n.Name]
+		if f.Cfg.ForceInt > 0 {
+			ds = 0 // uploads are governed by the forced interval (checked above)
+		}
 		if n == x {
 			if ds > 1 {
 				f.Violate(Violation{"C10", "restart-one-upload", "echo-upload-after-restart",
